@@ -19,6 +19,7 @@ EXPLANATION = (
     "written in sync.py are os.remove inside _FileModifyProxy._remove, reached from remove(), the backup clean-up and the "
     "replacement of an existing file by a link, plus the roll-back clear() of _DocProxy; _DocProxy offers no item deletion."
     " (h) The per-job and per-file loops of the synchronisation carry nothing between iterations; sync_jobs never modifies the caller's exclude list; a clone-side exclude filter protects the reserved file names."
+    ' (k) _FileModifyProxy.copy ends on every normal path of a real run in a copy primitive / link creation (no skip condition of its own), and a real copytree is shutil.copytree, not an os.walk re-implementation.'
 )
 UNDECIDED = "The superset / byte-identity post-condition and idempotence of a repeated sync are behavioural and not decided."
 
